@@ -10,6 +10,21 @@ Nothing in here imports NIFTy at module import time.
 """
 import numpy as np
 
+
+
+class SkipCase(Exception):
+    """oracle precondition not met; converted to ck.skip() by the checks' case() wrappers
+    (vf.runner.Skip cannot be used from a check module: the workers run vf.runner as __main__,
+    so the class imported from vf.runner is a different object than the one they catch)"""
+
+
+def run_case(ck, fn, *a):
+    try:
+        return fn(ck, *a)
+    except SkipCase as e:
+        ck.skip(str(e) or "skip")
+
+
 KEYS = ["a", "b", "c"]
 NONLINS = ("id", "tanh", "exp")          # exp means exp(0.1*x)
 PROD_SCALE = 0.3
